@@ -176,6 +176,13 @@ def size_fresh(prog: Program, rep: Report):
                         continue
                     used = {y.id for e in cfg.all_exprs(U) for y in ast.walk(e) if isinstance(y, ast.Name) and isinstance(y.ctx, ast.Load)
                             and y.id in axes and cfg.reaching().get(U, {}).get(y.id, set()) == {M}}
+                    # arithmetic bookkeeping of the size ('height = height + top + bottom' right after the pad) re-binds the
+                    # measured name from its old value: that is how the extent is kept in step with the image, not a stale use
+                    st_u = cfg.nodes[U].ast if cfg.nodes[U].kind == "stmt" else None
+                    if isinstance(st_u, ast.Assign):
+                        used -= {_n(t_) for t_ in st_u.targets}
+                    elif isinstance(st_u, ast.AugAssign):
+                        used -= {_n(st_u.target)}
                     if not used:
                         continue
                     for R in cfg.reaching().get(U, {}).get(img, set()) - img_defs_at_M:
@@ -201,6 +208,42 @@ def size_fresh(prog: Program, rep: Report):
                         for u in sorted(used):
                             if axes[u] in affected:
                                 stale.append((u, fa.line(U), fa.line(R), op))
+                # bookkeeping of an explicit padding: torchvision's 4-element padding is (left, top, right, bottom), its
+                # 2-element padding (left/right, top/bottom): what is added to the width / height must come from those positions
+                pad_units = {}
+                for n3, nd3 in cfg.nodes.items():
+                    st3 = nd3.ast if nd3.kind == "stmt" else None
+                    if isinstance(st3, ast.Assign) and isinstance(st3.targets[0], ast.Tuple) and len(st3.targets[0].elts) == 4 and \
+                            all(isinstance(e_, ast.Name) for e_ in st3.targets[0].elts) and isinstance(st3.value, (ast.Name, ast.Attribute)):
+                        src_t = fa.sym.term(st3.value, n3)
+                        is_padding = any(isinstance(c3.func, (ast.Name, ast.Attribute)) and (
+                            getattr(c3.func, "id", None) == "pad" or getattr(c3.func, "attr", None) == "pad") and len(c3.args) >= 2
+                            and fa.sym.term(c3.args[1], n4) == src_t for n4, c3 in fa.calls())
+                        if is_padding:
+                            for e_, u_ in zip(st3.targets[0].elts, ("W", "H", "W", "H")):
+                                pad_units[(e_.id, n3)] = u_
+                wrong = []
+                if pad_units:
+                    for n3, nd3 in cfg.nodes.items():
+                        st3 = nd3.ast if nd3.kind == "stmt" else None
+                        tgt3 = None
+                        if isinstance(st3, ast.Assign) and len(st3.targets) == 1 and isinstance(st3.targets[0], ast.Name):
+                            tgt3, val3 = st3.targets[0].id, st3.value
+                        elif isinstance(st3, ast.AugAssign) and isinstance(st3.target, ast.Name):
+                            tgt3, val3 = st3.target.id, st3.value
+                        if tgt3 not in axes:
+                            continue
+                        for y3 in ast.walk(val3):
+                            if isinstance(y3, ast.Name) and isinstance(y3.ctx, ast.Load):
+                                for (nm3, d3), u3 in pad_units.items():
+                                    if nm3 == y3.id and d3 in cfg.reaching().get(n3, {}).get(nm3, set()) and u3 != axes[tgt3]:
+                                        wrong.append((tgt3, y3.id, fa.line(n3), u3))
+                if wrong:
+                    t3, y3, l3, u3 = wrong[0]
+                    rep.bad("G6.size-fresh", fi, f"padding-axes:{t3}", f"'{y3}' is a {'horizontal' if u3 == 'W' else 'vertical'} entry of the "
+                            f"4-element padding (torchvision order: left, top, right, bottom) but is added to the tracked "
+                            f"{'height' if axes[t3] == 'H' else 'width'} '{t3}' (line {l3}): the tracked size differs from the padded image, "
+                            f"crops are sampled beyond its edge", line=l3, clause="C14.1")
                 o = rep.decide(not stale, "G6.size-fresh", fi, f"measure:{','.join(sorted(axes))}@{nm}",
                                "every use sees the image as it was measured (on the used axis)",
                                "; ".join(f"'{u}' (measured at line {fa.line(M)}) is used at line {lu} after the image was changed by "
